@@ -33,6 +33,26 @@ def suppress_logging():
         logging.disable(logging.NOTSET)
 
 
+@contextlib.contextmanager
+def preserve_stdin_and_logging():
+    """Put ``sys.stdin`` and the ``logging.disable`` level back after SUT execution.
+
+    A SUT may rebind ``sys.stdin`` or call ``logging.disable``; both are
+    process-global.  Use this in the thread that *waits* for the execution, so
+    that the restore also runs when the executing thread has to be abandoned.
+
+    Yields:
+        Nothing; restores both values on exit.
+    """
+    saved_stdin = sys.stdin
+    saved_disable = logging.root.manager.disable
+    try:
+        yield
+    finally:
+        sys.stdin = saved_stdin
+        logging.disable(saved_disable)
+
+
 class OutputSuppressionContext:
     """A context manager that suppresses stdout and stderr.
 
@@ -73,12 +93,17 @@ class OutputSuppressionContext:
             sys.stderr = sys.__stderr__
 
     def __enter__(self) -> None:
+        cls = OutputSuppressionContext
+        if cls._null_file.closed:
+            # A previously executed SUT closed its (redirected) ``sys.stdout``.  The
+            # sink is shared by all executions, so later ones need a new one.
+            cls._null_file = open(os.devnull, mode="w")  # noqa: PLW1514, PTH123, SIM115
         # Save OS-level fds before the SUT has a chance to close them.
         for fd in (0, 1, 2):
             with contextlib.suppress(OSError):
                 self._saved_fds[fd] = os.dup(fd)
-        sys.stdout = self._null_file
-        sys.stderr = self._null_file
+        sys.stdout = cls._null_file
+        sys.stderr = cls._null_file
 
     def __exit__(self, exc_type, exc_val, exc_tb) -> None:
         self.restore()
